@@ -1449,7 +1449,10 @@ impl Linearizer {
         constraints: Vec<Constraint>,
         mut domain: IndexMap<String, DomainVariable>,
     ) -> Self {
-        let mut bounds = BoundsAnalyzer::analyze(&domain, &constraints);
+        let mut bounds = BoundsAnalyzer::analyze(
+            &domain,
+            &BoundsAnalyzer::lowered_constraints(&constraints),
+        );
         bounds.apply_to_domain(&mut domain);
         bounds.restrict_to_domain(&domain);
         Self::new_from_with_bounds(constraints, domain, bounds)
@@ -1548,7 +1551,10 @@ impl Linearizer {
     /// * `Err(LinearizationError)` - If linearization fails
     pub fn linearize(model: Model) -> Result<LinearModel, LinearizationError> {
         let (objective, constraints, mut domain) = model.into_components();
-        let mut bounds = BoundsAnalyzer::analyze(&domain, &constraints);
+        let mut bounds = BoundsAnalyzer::analyze(
+            &domain,
+            &BoundsAnalyzer::lowered_constraints(&constraints),
+        );
         bounds.apply_to_domain(&mut domain);
         bounds.restrict_to_domain(&domain);
         let mut context = Linearizer::new_from_with_bounds(constraints, domain, bounds);
